@@ -427,6 +427,92 @@ class Body:
             return sd[0], sd[3], projs
         return None
 
+    # ---------- constants ----------
+    def const_info(self, op):
+        """what a constant operand denotes, following promoted constants (`&"lit"`, `&Codec::Null`, `&[..]`).
+        returns dict with any of: str, bytes, int, strs, variant=(adt, name), item"""
+        out = {}
+        if op.get("k") != "const":
+            return out
+        for k in ("str", "bytes", "int", "strs", "ints", "item", "bits"):
+            if k in op:
+                out[k] = op[k]
+        tc = op.get("tyconst")
+        if isinstance(tc, str) and len(tc) >= 2 and tc[0] == '"' and tc[-1] == '"':
+            out["str"] = tc[1:-1]
+        if op.get("promoted"):
+            for pr in self.raw.get("promoteds", []):
+                if pr["pidx"] != op.get("pidx"):
+                    continue
+                for blk in pr["blocks"]:
+                    for st in blk["stmts"]:
+                        if st["s"] != "assign":
+                            continue
+                        rv = st["rv"]
+                        if rv["r"] == "agg" and rv.get("ak") == "adt":
+                            out.setdefault("variant", (rv["adt"], rv.get("variant")))
+                            out.setdefault("variants", []).append((rv["adt"], rv.get("variant")))
+                        for o in rv_operands(rv):
+                            if o.get("k") == "const":
+                                sub = {}
+                                for k in ("str", "bytes", "int", "strs"):
+                                    if k in o:
+                                        sub[k] = o[k]
+                                tc2 = o.get("tyconst")
+                                if isinstance(tc2, str) and len(tc2) >= 2 and tc2[0] == '"':
+                                    sub["str"] = tc2[1:-1]
+                                if "str" in sub:
+                                    out.setdefault("str", sub["str"])
+                                    out.setdefault("strs_seq", []).append(sub["str"])
+                                if "bytes" in sub:
+                                    out.setdefault("bytes", sub["bytes"])
+                                if "int" in sub:
+                                    out.setdefault("ints_seq", []).append(sub["int"])
+        return out
+
+    def op_str(self, op):
+        """string literal an operand denotes (directly, via a promoted `&"lit"`, or via a single-assignment local)"""
+        if op.get("k") == "const":
+            return self.const_info(op).get("str")
+        if op.get("k") in ("copy", "move"):
+            l, projs = self.resolve_place(op["pl"])
+            sd = self.single_def(l)
+            if sd and sd[2] == "assign" and sd[3]["r"] == "use" and sd[3]["o"].get("k") == "const":
+                return self.const_info(sd[3]["o"]).get("str")
+        return None
+
+    def op_const(self, op):
+        """const_info of an operand, looking through single-assignment locals / refs to constants"""
+        if op.get("k") == "const":
+            return self.const_info(op)
+        if op.get("k") in ("copy", "move"):
+            l, projs = self.resolve_place(op["pl"])
+            sd = self.single_def(l)
+            if sd and sd[2] == "assign" and sd[3]["r"] == "use" and sd[3]["o"].get("k") == "const":
+                return self.const_info(sd[3]["o"])
+        return {}
+
+    def literals(self):
+        """all string literals mentioned in the body (operands, call args, promoteds)"""
+        out = []
+        def visit(o):
+            if o.get("k") == "const":
+                ci = self.const_info(o)
+                if "strs_seq" in ci:
+                    out.extend(ci["strs_seq"])
+                elif "str" in ci:
+                    out.append(ci["str"])
+                if "strs" in ci:
+                    out.extend(ci["strs"])
+        for bi, si, st in self.stmts():
+            if st["s"] == "assign":
+                for o in rv_operands(st["rv"]):
+                    visit(o)
+        for bi, t in self.calls():
+            for a in t["args"]:
+                visit(a)
+        return out
+
     # ---------- calls ----------
     def calls(self):
         for bi in range(self.n):
